@@ -138,3 +138,24 @@ Theorem C09_ce_binary64_bounds : forall p mu c bars M, ce_new FOps p mu = Ok c -
       greatest_in FOps (Ring.lastn (N.to_nat p) (firstn (S k) highs)) mx /\ least_in FOps (Ring.lastn (N.to_nat p) (firstn (S k) lows)) mn /\
       (FR lg <= FR mx)%R /\ (FR mn <= FR sh)%R.
 Proof. exact ce_float_bounds. Qed.
+(* averages on binary64 stay between the extremes of what they average, up to their PROVED rounding error: SMA within [min, max] of the
+   window +- ((9t+1) 2^-53 M + (5t+1) 2^-1075), WMA likewise with its (quadratic) bound, EMA within the extremes of the whole history
+   +- 17 (n+1) 2^-53 M for streams of any length *)
+From TA Require Import Proofs.FloatEma Proofs.FloatWma Proofs.FloatBetween.
+Theorem C09_sma_binary64_between : forall p s xs M lo hi, sma_new FOps p = Ok s -> (p < 9007199254740992)%N -> (0 <= M)%R ->
+  Forall (okin M) xs -> (3 * ((INR (N.to_nat p) + 2) * M + 1) <= BIG)%R -> (INR (length xs) * u <= / 16)%R ->
+  Forall (fun x => (lo <= FR x <= hi)%R) xs ->
+  Forall2 (fun o hh => finF o /\ (lo - out_bound M (length hh) <= FR o <= hi + out_bound M (length hh))%R)
+          (Wiring.sma_outs' FOps s xs) (XSma.prefixes_from [] xs).
+Proof. exact sma_float_between. Qed.
+Theorem C09_wma_binary64_between : forall p s xs M lo hi, wma_new FOps p = Ok s -> (p < 67108864)%N ->
+  (1 <= M)%R -> (M <= bpow radix2 400)%R -> Forall (okin M) xs -> (INR (length xs) * u <= / 64)%R ->
+  Forall (fun x => (lo <= FR x <= hi)%R) xs ->
+  Forall2 (fun o hh => finF o /\ (lo - wma_bound M (N.to_nat p) (length hh) <= FR o <= hi + wma_bound M (N.to_nat p) (length hh))%R)
+          (Wiring.res_outs (wma_next FOps) s xs) (XSma.prefixes_from [] xs).
+Proof. exact wma_float_between. Qed.
+Theorem C09_ema_binary64_between : forall p s xs M lo hi, ema_new FOps p = Ok s -> (p < 140737488355328)%N ->
+  (bpow radix2 (-960) <= M)%R -> (M <= bpow radix2 990)%R -> Forall (okin M) xs -> Forall (fun x => (lo <= FR x <= hi)%R) xs ->
+  Forall (fun o => finF o /\ (lo - 17 * (IZR (Z.of_N p) + 1) * u * M <= FR o <= hi + 17 * (IZR (Z.of_N p) + 1) * u * M)%R)
+         (Wiring.ema_outs FOps s xs).
+Proof. exact ema_float_between. Qed.
